@@ -37,10 +37,21 @@ def scale_factor(F, f):
         return None, "no renormalisation step found on the path to `return LieGroup(...)`"
     s = ifs[-1]
     cond = sexp(s.get("cond"))
-    m = re.match(r"\((>|>=) \(abs \(- (\S+) \(CXXFunctionalCastExpr 1\)\)\) \S*eps\)$", cond)
-    if not m:
+    # accepted spellings:  abs(N - 1) > eps,  abs(1 - N) >= eps,  eps < abs(N - 1)  (N a local variable)
+    c = A.strip(s.get("cond"))
+    sq_name = None
+    if isinstance(c, dict) and c.get("k") == "BinaryOperator" and c.get("op") in (">", ">=", "<", "<="):
+        l, r = A.strip(c["ch"][0]), A.strip(c["ch"][1])
+        big, small = (l, r) if c["op"] in (">", ">=") else (r, l)
+        if "::eps" in sexp(small) and "abs" in sexp(big):
+            for x in A.walk(big):
+                if x.get("k") == "BinaryOperator" and x.get("op") == "-":
+                    a, b = A.strip(x["ch"][0]), A.strip(x["ch"][1])
+                    for u, w in ((a, b), (b, a)):
+                        if isinstance(u, dict) and u.get("k") == "DeclRefExpr" and sexp(w).replace("CXXFunctionalCastExpr ", "").strip("()") in ("1", "1.", "1.0"):
+                            sq_name = u.get("name")
+    if sq_name is None:
         return None, "renormalisation is guarded by `%s`, expected `abs(<squared norm> - 1) > Constants::eps`" % cond[:120]
-    sq_name = m.group(2)
     # the squared-norm variable must be the squared norm of the coefficients that get scaled
     sq_decl = None
     for st in stmts:
